@@ -293,12 +293,12 @@ func flatHSPS(s *hevc.SPS) *flat {
 
 func runHSPS(nalu []byte) (r result) {
 	p := hx.Try(func() {
-		s, err := hevc.ParseSPSNALUnit(hx.Exact(nalu))
+		s, err := hevc.ParseSPSNALUnit(in(nalu))
 		if err != nil {
 			r = result{outcome: "err", errStr: err.Error()}
 			return
 		}
-		r = result{outcome: "ok", f: flatHSPS(s)}
+		r = okResult(func() *flat { return flatHSPS(s) })
 	})
 	if p != "" {
 		r = result{outcome: "panic", errStr: p}
@@ -412,12 +412,12 @@ func hevcSpsIDMap(arg string) map[uint32]*hevc.SPS {
 
 func runHPPS(nalu []byte, arg string) (r result) {
 	p := hx.Try(func() {
-		s, err := hevc.ParsePPSNALUnit(hx.Exact(nalu), hevcSpsIDMap(arg))
+		s, err := hevc.ParsePPSNALUnit(in(nalu), hevcSpsIDMap(arg))
 		if err != nil {
 			r = result{outcome: "err", errStr: err.Error()}
 			return
 		}
-		r = result{outcome: "ok", f: flatHPPS(s)}
+		r = okResult(func() *flat { return flatHPPS(s) })
 	})
 	if p != "" {
 		r = result{outcome: "panic", errStr: p}
@@ -547,12 +547,12 @@ func flatHPPS2(p *hevc.PPS) *flat {
 
 func runHPPS2(nalu []byte, arg string) (r result) {
 	p := hx.Try(func() {
-		s, err := hevc.ParsePPSNALUnit(hx.Exact(nalu), hevcSpsIDMap(arg))
+		s, err := hevc.ParsePPSNALUnit(in(nalu), hevcSpsIDMap(arg))
 		if err != nil {
 			r = result{outcome: "err", errStr: err.Error()}
 			return
 		}
-		r = result{outcome: "ok", f: flatHPPS2(s)}
+		r = okResult(func() *flat { return flatHPPS2(s) })
 	})
 	if p != "" {
 		r = result{outcome: "panic", errStr: p}
@@ -568,11 +568,11 @@ func hevcMapsOf(arg string) (map[uint32]*hevc.SPS, map[uint32]*hevc.PPS) {
 		k, v, _ := strings.Cut(op, ":")
 		switch k {
 		case "S":
-			if s, err := hevc.ParseSPSNALUnit(hx.UnHex(v)); err == nil {
+			if s, err := hevc.ParseSPSNALUnit(in(hx.UnHex(v))); err == nil {
 				spsMap[uint32(s.SpsID)] = s
 			}
 		case "P":
-			if p, err := hevc.ParsePPSNALUnit(hx.UnHex(v), spsMap); err == nil {
+			if p, err := hevc.ParsePPSNALUnit(in(hx.UnHex(v)), spsMap); err == nil {
 				ppsMap[p.PicParameterSetID] = p
 			}
 		case "DS":
@@ -688,12 +688,12 @@ func flatHSlice(h *hevc.SliceHeader) *flat {
 func runHSlice(nalu []byte, arg string) (r result) {
 	p := hx.Try(func() {
 		spsMap, ppsMap := hevcMapsOf(arg)
-		h, err := hevc.ParseSliceHeader(hx.Exact(nalu), spsMap, ppsMap)
+		h, err := hevc.ParseSliceHeader(in(nalu), spsMap, ppsMap)
 		if err != nil {
 			r = result{outcome: "err", errStr: err.Error()}
 			return
 		}
-		r = result{outcome: "ok", f: flatHSlice(h)}
+		r = okResult(func() *flat { return flatHSlice(h) })
 	})
 	if p != "" {
 		r = result{outcome: "panic", errStr: p}
@@ -753,33 +753,42 @@ func runHConf(arg string) (r result) {
 		}
 		vps, sps, pps := hexList(parts[0]), hexList(parts[1]), hexList(parts[2])
 		fl := parts[3]
-		d, err := hevc.CreateHEVCDecConfRec(vps, sps, pps, fl[0] == '1', fl[1] == '1', fl[2] == '1', fl[3] == '1')
+		d, err := hevc.CreateHEVCDecConfRec(inList(vps), inList(sps), inList(pps), fl[0] == '1', fl[1] == '1', fl[2] == '1', fl[3] == '1')
 		if err != nil {
 			r = result{outcome: "err", errStr: err.Error()}
 			return
 		}
-		f := &flat{}
-		flatHevcRec(f, "Rec", &d)
-		f.u("Size", d.Size())
-		var buf bytes.Buffer
-		if err := d.Encode(&buf); err != nil {
-			r = result{outcome: "err", errStr: "encode: " + err.Error()}
+		s, serr := hevc.ParseSPSNALUnit(sps[0])
+		var bad *result // an "err" outcome found while flattening
+		res := okResult(func() *flat {
+			f := &flat{}
+			flatHevcRec(f, "Rec", &d)
+			f.u("Size", d.Size())
+			var buf bytes.Buffer
+			if err := d.Encode(&buf); err != nil {
+				bad = &result{outcome: "err", errStr: "encode: " + err.Error()}
+				return f
+			}
+			checkEncodeHEVC(&d, buf.Bytes())
+			flatU8s(f, "Encoded", buf.Bytes())
+			d2, err := hevc.DecodeHEVCDecConfRec(hx.Exact(buf.Bytes()))
+			if err != nil {
+				bad = &result{outcome: "err", errStr: "decode(encode): " + err.Error()}
+				return f
+			}
+			flatHevcRec(f, "Decoded", &d2)
+			if serr != nil {
+				bad = &result{outcome: "err", errStr: serr.Error()}
+				return f
+			}
+			flatU8s(f, "CodecString", []byte(hevc.CodecString("hvc1", s)))
+			return f
+		})
+		if bad != nil {
+			r = *bad
 			return
 		}
-		flatU8s(f, "Encoded", buf.Bytes())
-		d2, err := hevc.DecodeHEVCDecConfRec(hx.Exact(buf.Bytes()))
-		if err != nil {
-			r = result{outcome: "err", errStr: "decode(encode): " + err.Error()}
-			return
-		}
-		flatHevcRec(f, "Decoded", &d2)
-		s, err := hevc.ParseSPSNALUnit(sps[0])
-		if err != nil {
-			r = result{outcome: "err", errStr: err.Error()}
-			return
-		}
-		flatU8s(f, "CodecString", []byte(hevc.CodecString("hvc1", s)))
-		r = result{outcome: "ok", f: f}
+		r = res
 	})
 	if p != "" {
 		r = result{outcome: "panic", errStr: p}
@@ -789,14 +798,20 @@ func runHConf(arg string) (r result) {
 
 func runHConfD(data []byte) (r result) {
 	p := hx.Try(func() {
-		d, err := hevc.DecodeHEVCDecConfRec(hx.Exact(data))
+		d, err := hevc.DecodeHEVCDecConfRec(inView(data))
 		if err != nil {
 			r = result{outcome: "err", errStr: err.Error()}
 			return
 		}
-		f := &flat{}
-		flatHevcRec(f, "Rec", &d)
-		r = result{outcome: "ok", f: f}
+		r = okResult(func() *flat {
+			f := &flat{}
+			flatHevcRec(f, "Rec", &d)
+			var buf bytes.Buffer
+			if err := d.Encode(&buf); err == nil {
+				checkEncodeHEVC(&d, buf.Bytes())
+			}
+			return f
+		})
 	})
 	if p != "" {
 		r = result{outcome: "panic", errStr: p}
@@ -812,7 +827,7 @@ func runInit(kind, arg string) (r result) {
 		init := mp4.CreateEmptyInit()
 		init.AddEmptyTrack(90000, "video", "und")
 		trak := init.Moov.Trak
-		f := &flat{}
+		var bad *result
 		if kind == "AINIT" {
 			if len(parts) != 3 || len(parts[2]) != 2 {
 				r = result{outcome: "badarg"}
@@ -822,23 +837,28 @@ func runInit(kind, arg string) (r result) {
 			if parts[2][0] == '1' {
 				typ = "avc1"
 			}
-			if err := trak.SetAVCDescriptor(typ, unhexList(parts[0]), unhexList(parts[1]), parts[2][1] == '1'); err != nil {
+			if err := trak.SetAVCDescriptor(typ, inList(unhexList(parts[0])), inList(unhexList(parts[1])), parts[2][1] == '1'); err != nil {
 				r = result{outcome: "err", errStr: err.Error()}
 				return
 			}
-			e := trak.Mdia.Minf.Stbl.Stsd.AvcX
-			f.u("Tkhd.Width", uint64(trak.Tkhd.Width))
-			f.u("Tkhd.Height", uint64(trak.Tkhd.Height))
-			f.u("Entry.Width", uint64(e.Width))
-			f.u("Entry.Height", uint64(e.Height))
-			flatConfRec(f, "avcC", &e.AvcC.DecConfRec)
-			var buf bytes.Buffer
-			if err := e.AvcC.DecConfRec.Encode(&buf); err != nil {
-				f.u("avcC.encoded", 0)
-			} else {
-				f.u("avcC.encoded", 1)
-				flatBytes(f, "avcC.bytes", buf.Bytes())
-			}
+			r = okResult(func() *flat {
+				f := &flat{}
+				e := trak.Mdia.Minf.Stbl.Stsd.AvcX
+				f.u("Tkhd.Width", uint64(trak.Tkhd.Width))
+				f.u("Tkhd.Height", uint64(trak.Tkhd.Height))
+				f.u("Entry.Width", uint64(e.Width))
+				f.u("Entry.Height", uint64(e.Height))
+				flatConfRec(f, "avcC", &e.AvcC.DecConfRec)
+				var buf bytes.Buffer
+				if err := e.AvcC.DecConfRec.Encode(&buf); err != nil {
+					f.u("avcC.encoded", 0)
+				} else {
+					f.u("avcC.encoded", 1)
+					flatBytes(f, "avcC.bytes", buf.Bytes())
+					checkEncodeAVC(&e.AvcC.DecConfRec, buf.Bytes())
+				}
+				return f
+			})
 		} else {
 			if len(parts) != 4 || len(parts[3]) != 2 {
 				r = result{outcome: "badarg"}
@@ -848,24 +868,31 @@ func runInit(kind, arg string) (r result) {
 			if parts[3][0] == '1' {
 				typ = "hvc1"
 			}
-			if err := trak.SetHEVCDescriptor(typ, hexList(parts[0]), hexList(parts[1]), hexList(parts[2]), nil, parts[3][1] == '1'); err != nil {
+			if err := trak.SetHEVCDescriptor(typ, inList(hexList(parts[0])), inList(hexList(parts[1])), inList(hexList(parts[2])), nil, parts[3][1] == '1'); err != nil {
 				r = result{outcome: "err", errStr: err.Error()}
 				return
 			}
-			e := trak.Mdia.Minf.Stbl.Stsd.HvcX
-			f.u("Tkhd.Width", uint64(trak.Tkhd.Width))
-			f.u("Tkhd.Height", uint64(trak.Tkhd.Height))
-			f.u("Entry.Width", uint64(e.Width))
-			f.u("Entry.Height", uint64(e.Height))
-			flatHevcRec(f, "hvcC", &e.HvcC.DecConfRec)
-			var buf bytes.Buffer
-			if err := e.HvcC.DecConfRec.Encode(&buf); err != nil {
-				r = result{outcome: "err", errStr: "encode: " + err.Error()}
-				return
-			}
-			flatU8s(f, "hvcC.bytes", buf.Bytes())
+			r = okResult(func() *flat {
+				f := &flat{}
+				e := trak.Mdia.Minf.Stbl.Stsd.HvcX
+				f.u("Tkhd.Width", uint64(trak.Tkhd.Width))
+				f.u("Tkhd.Height", uint64(trak.Tkhd.Height))
+				f.u("Entry.Width", uint64(e.Width))
+				f.u("Entry.Height", uint64(e.Height))
+				flatHevcRec(f, "hvcC", &e.HvcC.DecConfRec)
+				var buf bytes.Buffer
+				if err := e.HvcC.DecConfRec.Encode(&buf); err != nil {
+					bad = &result{outcome: "err", errStr: "encode: " + err.Error()}
+					return f
+				}
+				checkEncodeHEVC(&e.HvcC.DecConfRec, buf.Bytes())
+				flatU8s(f, "hvcC.bytes", buf.Bytes())
+				return f
+			})
 		}
-		r = result{outcome: "ok", f: f}
+		if bad != nil {
+			r = *bad
+		}
 	})
 	if p != "" {
 		r = result{outcome: "panic", errStr: p}
